@@ -20,13 +20,13 @@ type c17Case struct {
 	Slot  string   `json:"slot"`  // missing | equal | different
 }
 
-var c17Atoms = []string{"ok-any", "ok-type", "ok-custom", "miss-any", "miss-type", "miss-custom", "bad-type", "bad-custom", "bad-type2", "bad-syntax", "bad-type-null", "bad-custom-chan"}
+var c17Atoms = []string{"ok-any", "ok-type", "ok-custom", "miss-any", "miss-type", "miss-custom", "bad-type", "bad-custom", "bad-type2", "bad-syntax", "bad-type-null", "bad-custom-chan", "bad-any-child-after-parent", "bad-type-tagged", "bad-type-anchored", "bad-custom-alias"}
 
 const (
 	c17JSONDoc  = `{"a":1,"b":"x","c":{"d":true},"e":2,"n":null}`
 	c17JSONDoc2 = `{"a":5,"b":"y","c":{"d":false},"e":3,"n":null}`
-	c17YAMLDoc  = "a: 1\nb: x\nc:\n  d: true\ne: 2\nn: null\n"
-	c17YAMLDoc2 = "a: 5\nb: y\nc:\n  d: false\ne: 3\nn: null\n"
+	c17YAMLDoc  = "a: 1\nb: x\nc:\n  d: true\ne: 2\nn: null\nt: !!str 10\nan: &an 4\nal: *an\n"
+	c17YAMLDoc2 = "a: 5\nb: y\nc:\n  d: false\ne: 3\nn: null\nt: !!str 10\nan: &an 4\nal: *an\n"
 )
 
 type c17Built struct {
@@ -126,6 +126,37 @@ func c17Build(api string, atoms []string, eomp bool, dropMissing bool) c17Built 
 			m := match.Custom(p("e"), func(v any) (any, error) { return map[string]any{"c": make(chan int)}, nil }).ErrOnMissingPath(eomp)
 			b.jm, b.ym = append(b.jm, m), append(b.ym, m)
 			b.fails = append(b.fails, `Custom("`+p("e")+`")`)
+		case "bad-any-child-after-parent":
+			// ONE Any whose first path replaces the parent of its second path: the second path no longer exists when its turn comes
+			if yaml {
+				b.skip = true
+				continue
+			}
+			m := match.Any(p("c"), p("c.d"))
+			b.jm = append(b.jm, m)
+			b.fails = append(b.fails, `Any("`+p("c.d")+`")`)
+		case "bad-type-tagged", "bad-type-anchored", "bad-custom-alias":
+			// YAML scalars that carry a tag, an anchor or are an alias: the matcher sees the decoded value like for any other scalar
+			if !yaml {
+				b.skip = true
+				continue
+			}
+			switch a {
+			case "bad-type-tagged":
+				b.ym = append(b.ym, match.Type[uint64]("$.t")) // `!!str 10` is a string
+				b.fails = append(b.fails, `Type("$.t")`)
+			case "bad-type-anchored":
+				b.ym = append(b.ym, match.Type[string]("$.an")) // `&an 4` is a number
+				b.fails = append(b.fails, `Type("$.an")`)
+			default:
+				b.ym = append(b.ym, match.Custom("$.al", func(v any) (any, error) {
+					if _, isStr := v.(string); isStr {
+						return v, nil
+					}
+					return nil, errors.New("alias value is not a string")
+				})) // `*an` is the number 4
+				b.fails = append(b.fails, `Custom("$.al")`)
+			}
 		case "bad-syntax":
 			if !yaml {
 				b.skip = true
